@@ -46,7 +46,7 @@ TABLE = {
     "C08": dict(
         technique="translation validation by an independent compiler: gcc -S -O0/-O1 output of the original and of the CGenerator text (both configurations) must be byte-identical, for Hypothesis-generated type-correct programs and the gcc-compilable corpus",
         text="Programs from the typed builder (gcc-valid only) and the preprocessed corpus files gcc compiles are parsed, regenerated and recompiled; the assembly at -O0 and -O1 must be identical after dropping .file/.ident. Nothing of pycparser takes part in the comparison, so faults shared by parser and generator show. Statistical (about 200 programs per quick run, 4 800 per thorough run); differences invisible on LP64 (long vs long long) or in code generation ('static' in array parameters) are out of reach and left to C07.",
-        note="The typed builder draws prefix operators on operands starting with the same character ('- --x', '+ ++x', 'a - -b'). Trusted: gcc 12 determinism; programs gcc rejects are generator misses and unused.",
+        note="The typed builder draws prefix operators on operands starting with the same character ('- --x', '+ ++x', 'a - -b'). Trusted: gcc 12 determinism; at -O0 a difference in nop instructions alone is tolerated (the -O1 comparison is exact); programs gcc rejects are generator misses and unused.",
         ref="DESIGN.md section 4, C08",
     ),
     "C09": dict(
